@@ -53,10 +53,14 @@ func c08Gen(r *rand.Rand, tier string, idx int) any {
 	p.SpanMs = []int{5, 40, 200, 1500}[r.IntN(4)]
 	if p.Cfg != "" && r.IntN(2) == 0 {
 		p.Phase = "est"
-		p.Mode = []string{"U", "U", "K", "R"}[r.IntN(4)]
+		p.Mode = []string{"U", "U", "K", "R", "F"}[r.IntN(5)]
 		p.N = 1 + r.IntN(40)
 		if p.Mode == "R" {
 			p.N = 50 + r.IntN(1000)
+		}
+		if p.Mode == "F" {
+			p.N = 900 + r.IntN(900)
+			p.Flood = c08FloodShapes[r.IntN(len(c08FloodShapes))]
 		}
 
 		return p
@@ -295,6 +299,39 @@ func hostileDatagram(r *rand.Rand, captured [][]byte, cidLen int, uOnly bool) (d
 	return []byte{0}, "noise"
 }
 
+var c08FloodShapes = []string{"frags", "tiny", "empty", "empty-nonempty", "overlap", "seqs"}
+
+// floodFragment builds the i-th datagram of a reassembly flood: one cleartext handshake fragment
+// of a future message, in one of several shapes. Message sequence numbers lie just ahead of the
+// handshake (overtaken and pruned as it proceeds) or far ahead of it (never reached: whatever is
+// buffered for them stays); record numbers rise in injection order (else the replay window
+// discards most of the flood before it reaches the reassembly buffer).
+func floodFragment(hr *rand.Rand, shape string, i, pick, recSeq int) []byte {
+	msgLen, off, fl, seq := 1900000, i*1500, 1400, []int{1 + hr.IntN(3), 30 + hr.IntN(4), 1000 + hr.IntN(2), 65535}[pick%4]
+	switch shape {
+	case "tiny": // one byte each: the fragment count is the limit that matters
+		msgLen, off, fl = 1900000, i*3, 1
+	case "empty": // empty fragments of an empty message, each at its own offset
+		msgLen, off, fl = 0, 1+i, 0
+	case "empty-nonempty": // empty fragments of a non-empty message
+		msgLen, off, fl = 50000, i, 0
+	case "overlap": // overlapping fragments with shifting boundaries
+		msgLen, off, fl = 60000, i*7, 100
+	case "seqs": // one small fragment for each of many future messages
+		msgLen, off, fl, seq = 300, 0, 20, 1+i
+	}
+	h := make([]byte, 12)
+	h[0] = []byte{11, 14, 12, 2}[hr.IntN(4)]
+	putU24(h[1:], msgLen)
+	putU16(h[4:], seq)
+	putU24(h[6:], off)
+	putU24(h[9:], fl)
+	body := append(h, make([]byte, fl)...)
+	rec := []byte{CTHandshake, 0xfe, 0xfd, 0, 0, 0, 0, 1, byte(recSeq >> 16), byte(recSeq >> 8), byte(recSeq), byte(len(body) >> 8), byte(len(body))}
+
+	return append(rec, body...)
+}
+
 func c08CheckSizes(rc *RunCtx, name string, c *dtls.Conn) bool {
 	z := dtls.VerifSizesOf(c)
 	s := rc.S
@@ -394,34 +431,8 @@ func c08Run(rc *RunCtx, params any) {
 			var data []byte
 			var kind string
 			if p.Flood != "" {
-				// reassembly stress: many fragments of future messages, in one of several shapes
-				// message sequence numbers just ahead of the handshake (overtaken and pruned as it
-				// proceeds) or far ahead of it (never reached: whatever is buffered for them stays)
-				msgLen, off, fl, seq := 1900000, i*1500, 1400, []int{1 + hr.IntN(3), 30 + hr.IntN(4), 1000 + hr.IntN(2), 65535}[int(hd.A)%4]
-				switch p.Flood {
-				case "tiny": // one byte each: the fragment count is the limit that matters
-					msgLen, off, fl = 1900000, i*3, 1
-				case "empty": // empty fragments of an empty message, each at its own offset
-					msgLen, off, fl = 0, 1+i, 0
-				case "empty-nonempty": // empty fragments of a non-empty message
-					msgLen, off, fl = 50000, i, 0
-				case "overlap": // overlapping fragments with shifting boundaries
-					msgLen, off, fl = 60000, i*7, 100
-				case "seqs": // one small fragment for each of many future messages
-					msgLen, off, fl, seq = 300, 0, 20, 1+i
-				}
-				h := make([]byte, 12)
-				h[0] = []byte{11, 14, 12, 2}[hr.IntN(4)]
-				putU24(h[1:], msgLen)
-				putU16(h[4:], seq)
-				putU24(h[6:], off)
-				putU24(h[9:], fl)
-				body := append(h, make([]byte, fl)...)
-				// record numbers rise in injection order (else the replay window discards most of the
-				// flood before it reaches the reassembly buffer)
 				floodSeq++
-				rec := []byte{CTHandshake, 0xfe, 0xfd, 0, 0, 0, 0, 1, byte(floodSeq >> 16), byte(floodSeq >> 8), byte(floodSeq), byte(len(body) >> 8), byte(len(body))}
-				data, kind = append(rec, body...), "fragment-flood-"+p.Flood
+				data, kind = floodFragment(hr, p.Flood, i, int(hd.A), floodSeq), "fragment-flood-"+p.Flood
 			} else {
 				data, kind = hostileDatagram(hr, captured, cid, p.Mode == "U")
 			}
